@@ -1,5 +1,5 @@
 """C11 - Unit arithmetic converts only with fixed CSS ratios."""
-import struct
+import re, struct
 from common import *
 
 ID = "C11"
@@ -23,6 +23,9 @@ UNITS = ["em", "ex", "ch", "rem", "vw", "vh", "vmin", "vmax", "cm", "mm", "Q", "
 OPS = {"+": "OPlus", "-": "OMinus", "<": "OLt", "<=": "OLe", ">": "OGt", ">=": "OGe",
        "==": "OEq", "!=": "ONe", "*": "OMul", "/": "ODiv"}
 MAGS = [1.0, 2.0, 3.0, 0.5, 1.5, 10.0, 96.0, 2.54, 7.25, 100.0, 0.1, 12.0, 360.0, 1000.0, 0.75]
+# magnitudes whose converted value lands very close to (but not on) an integer or zero
+NEAR = [1e-9, 96.00000001, 2.54000000001, 0.999999999, 72.00000001, 1000.0000001, 1e-7, 25.4000000001, 400.00000001]
+GROUPS = [["cm", "mm", "Q", "in", "pt", "pc", "px"], ["deg", "grad", "rad", "turn"], ["s", "ms"], ["Hz", "kHz"], ["dpi", "dpcm", "dppx"]]
 
 
 def bits(x):
@@ -58,6 +61,18 @@ def gen_cases(ctx, tier):
             for op in OPS:
                 for _ in range(3):
                     cases.append({"op": op, "a": rng.choice(MAGS), "ua": u, "b": rng.choice(MAGS), "ub": v})
+    # pairs inside one CSS group (where conversion really happens), every operator, ordinary and near-integer magnitudes
+    n_grp = 900 if tier == "quick" else 6000
+    for _ in range(n_grp):
+        g = rng.choice(GROUPS)
+        u, v = rng.choice(g), rng.choice(g)
+        a = rng.choice(MAGS + NEAR + [0.0])
+        b = rng.choice(MAGS + NEAR)
+        cases.append({"op": rng.choice(list(OPS)), "a": a, "ua": u, "b": b, "ub": v})
+    # unitless / percent / fr operands under division (math.div route as well)
+    for _ in range(150 if tier == "quick" else 1500):
+        cases.append({"op": "/", "a": rng.choice(MAGS), "ua": rng.choice(["", "", "%", "fr", "px", "em"]),
+                      "b": rng.choice(MAGS), "ub": rng.choice(["%", "fr", "", "px", "in", "s", "foo"])})
     # equal magnitudes for the comparison corner
     for _ in range(60):
         u, v = rng.choice(pairs)
@@ -83,7 +98,38 @@ def expr_of(c):
 
 
 def impl_requests(c):
-    return [("evalv", expr_of(c))]
+    rs = [("evalv", expr_of(c))]
+    if c["op"] == "/":
+        # the second route the statement names: math.div, observed as printed text
+        a = num_text(c["a"]) + c["ua"]
+        b = num_text(c["b"]) + c["ub"]
+        rs.append(("scss", "expanded", "15", f'@use "sass:math"; a{{b: inspect(math.div({a}, {b}))}}'))
+    return rs
+
+
+def text_term(io2):
+    """'a {\n  b: calc(0.5px / 1s);\n}' -> IText num den display units"""
+    tag, f = io2
+    if tag == "err":
+        return "IErr"
+    if tag != "ok":
+        return "IOther"
+    m = re.search(r"b: (.*);\n\}", f[0].decode("utf-8", "replace"), re.S)
+    if not m:
+        return "IOther"
+    t = m.group(1)
+    if t.startswith("calc(") and t.endswith(")"):
+        t = t[5:-1]
+    m = re.match(r"^(-?)(\d*)(?:\.(\d+))?(.*)$", t, re.S)
+    if not m or (m.group(2) == "" and m.group(3) is None):
+        return "IKept"
+    sign, whole, frac, disp = m.group(1), m.group(2) or "0", m.group(3) or "", m.group(4)
+    if disp.startswith(" * 1"):      # `infinity * 1px` style never has digits; plain numbers only here
+        disp = disp[4:]
+    num = int(whole + frac) * (-1 if sign else 1)
+    den = 10 ** len(frac)
+    us = clist([f"({cstring(n)}, {cz(p)})" for n, p in parse_units(disp)])
+    return f"(IText {cz(num)} {cz(den)} {cstring(disp)} {us})"
 
 
 def parse_units(text):
@@ -112,6 +158,8 @@ def parse_units(text):
 
 def impl_term(io):
     tag, f = io[0]
+    if tag in ("panic", "crash", "timeout"):
+        return "IOther"
     if tag == "ok" and f[0] == b"num":
         disp = f[2].decode()
         us = clist([f"({cstring(n)}, {cz(p)})" for n, p in parse_units(disp)])
@@ -128,8 +176,9 @@ def impl_term(io):
 
 
 def coq_term(c, io):
+    i2 = text_term(io[1]) if len(io) > 1 else "INone"
     return (f"(mkCase {OPS[c['op']]} {cz(bits(c['a']))} {cstring(c['ua'])} "
-            f"{cz(bits(c['b']))} {cstring(c['ub'])} {impl_term(io)})")
+            f"{cz(bits(c['b']))} {cstring(c['ub'])} {impl_term(io)} {i2})")
 
 
 KCLASS = {0: None, 1: "known_C11_K1_kept_binop", 2: "known_C11_K2_lone_convert", 3: "known_C11_K3_unitless_le_ge"}
